@@ -11,6 +11,7 @@ type aqs struct {
 	nsolid    int
 	candidate int
 	data      []int // item ids being permuted
+	skipHeap  bool  // leave the ranges that reach the heap-sort fallback untouched (their items stay gas)
 }
 
 func (q *aqs) cmp(x, y int) int {
@@ -150,7 +151,9 @@ func (q *aqs) quickSort(a, b, maxDepth int, heapHits *int) {
 	for b-a > 12 {
 		if maxDepth == 0 {
 			*heapHits++
-			q.heapSort(a, b)
+			if !q.skipHeap {
+				q.heapSort(a, b)
+			}
 			return
 		}
 		maxDepth--
@@ -175,8 +178,11 @@ func (q *aqs) quickSort(a, b, maxDepth int, heapHits *int) {
 
 var antiQuicksortHeapHits int
 
-func antiQuicksort(n int) []int {
-	q := &aqs{val: make([]int, n), gas: n, data: make([]int, n)}
+func antiQuicksort(n int, fill int) []int {
+	q := &aqs{val: make([]int, n), gas: n, data: make([]int, n), skipHeap: fill >= 0}
+	if fill < 0 {
+		fill = 0
+	}
 	for i := range q.val {
 		q.val[i] = q.gas
 		q.data[i] = i
@@ -188,13 +194,38 @@ func antiQuicksort(n int) []int {
 	hits := 0
 	q.quickSort(0, n, depth*2, &hits)
 	antiQuicksortHeapHits += hits
+	// The values still "gas" were never compared with each other and are larger than every frozen one, so their
+	// relative order is free. With skipHeap they are (mostly) the content of the ranges handed to heapSort, so the
+	// fill decides what the heap-sort fallback of the real code gets to sort.
 	out := make([]int, n)
+	var gasPos []int
 	for i, v := range q.val {
 		if v == q.gas {
-			v = q.nsolid
-			q.nsolid++
+			gasPos = append(gasPos, i)
+		} else {
+			out[i] = v
 		}
-		out[i] = v
+	}
+	for k, i := range gasPos {
+		g := len(gasPos)
+		switch fill {
+		case 0:
+			out[i] = q.nsolid + k
+		case 1:
+			out[i] = q.nsolid + g - k
+		case 2:
+			out[i] = q.nsolid
+		case 3:
+			if k < g/2 {
+				out[i] = q.nsolid + k
+			} else {
+				out[i] = q.nsolid + g - k
+			}
+		case 4:
+			out[i] = q.nsolid + k%3
+		default:
+			out[i] = q.nsolid + (k*(7919+2*fill)+13*fill)%g
+		}
 	}
 	return out
 }
